@@ -9,31 +9,32 @@ BASE3 = dict(BASE2, CertKeys='{"k1","k2","k3"}')
 BASE3S = dict(BASE3, AppStates='{"s1","s2"}')
 
 
-def gen_cfg(name, consts, classes, depth, sw=False, nidl=False, fallback="FetchAny", so=False):
+def gen_cfg(name, consts, classes, depth, sw=False, nidl=False, fallback="FetchAny", so=False, be="inmem"):
     """Write a generator config into spec/ (idempotent) and return its file name."""
     txt = "SPECIFICATION Spec\nCONSTANTS\n"
     for k, v in consts.items():
         txt += "  %s = %s\n" % (k, v)
-    txt += "  Depth = %d\n  Classes = {%s}\n  Fallback = \"%s\"\n  CfgSW = %s\n  CfgNidl = %s\n  CfgSO = %s\nCHECK_DEADLOCK FALSE\n" % (
-        depth, ",".join('"%s"' % c for c in classes), fallback, "TRUE" if sw else "FALSE", "TRUE" if nidl else "FALSE", "TRUE" if so else "FALSE")
+    txt += "  Depth = %d\n  Classes = {%s}\n  Fallback = \"%s\"\n  CfgSW = %s\n  CfgNidl = %s\n  CfgSO = %s\n  CfgRmErr = %s\nCHECK_DEADLOCK FALSE\n" % (
+        depth, ",".join('"%s"' % c for c in classes), fallback, "TRUE" if sw else "FALSE", "TRUE" if nidl else "FALSE", "TRUE" if so else "FALSE",
+        "TRUE" if be == "file" else "FALSE")
     return name, txt
 
 
-def beh_cfg(consts, sw=False, nidl=False, so=False, nide=False):
+def beh_cfg(consts, sw=False, nidl=False, so=False, nide=False, be="inmem"):
     ck = [x.strip('"') for x in consts["CertKeys"].strip("{}").split(",")]
     tk = [x.strip('"') for x in consts["Tokens"].strip("{}").split(",")]
     # the projection always covers the trace spec's constants (BASE3), whatever subset the behaviour uses
-    return dict(sw=sw, nidl=nidl, so=so, nide=nide, certKeys=["k1", "k2", "k3"], tokens=["t1", "t2"])
+    return dict(sw=sw, nidl=nidl, so=so, nide=nide, be=be, rmerr=(be == "file"), certKeys=["k1", "k2", "k3"], tokens=["t1", "t2"])
 
 
 GEN_CFGS = {}
 
 
-def G(tag, consts, classes, depth, num, props, sw=False, nidl=False, fallback="FetchAny", so=False, nide=False):
+def G(tag, consts, classes, depth, num, props, sw=False, nidl=False, fallback="FetchAny", so=False, nide=False, be="inmem"):
     name = "RegistryGen_%s.cfg" % tag
-    GEN_CFGS[name] = gen_cfg(name, consts, classes, depth, sw, nidl, fallback, so)[1]
+    GEN_CFGS[name] = gen_cfg(name, consts, classes, depth, sw, nidl, fallback, so, be)[1]
     return dict(module="RegistryGen.tla", cfg=name, depth=depth, num=num, props=props, tag=tag,
-                beh_cfg=beh_cfg(consts, sw, nidl, so, nide))
+                beh_cfg=beh_cfg(consts, sw, nidl, so, nide, be))
 
 
 def materialise(scr):
@@ -78,6 +79,12 @@ FAMILY = dict(
           dict(quick=120, thorough=2500), ["C06"], sw=True),
         G("C06b", BASE2, ["Token", "Age", "Authorize", "FetchAuth", "FetchNear", "Tamper"], 12,
           dict(quick=80, thorough=1500), ["C06"], sw=False),
+        # overlapping fetches presenting the same token (A parked between its token load and its token removal), on the
+        # in-memory back end (known finding KF-C06-1) and on the file back end
+        G("C06c", BASE2, ["Token", "Age", "FetchRace", "FetchRace", "FetchAuth", "Authorize"], 8,
+          dict(quick=25, thorough=500), ["C06"], be="file"),
+        G("C06d", BASE2, ["Token", "FetchRace", "FetchAuth"], 6,
+          dict(quick=10, thorough=200), ["C06"], sw=True),
         G("C03a", BASE2, ["Submit", "SubmitWin", "CreateRequest", "Authorize"], 10,
           dict(quick=150, thorough=3000), ["C03"]),
         G("C05a", BASE3, ["Authorize", "Nid", "Remove", "GenCerts", "GenNear", "KeyKind"], 12,
@@ -105,15 +112,23 @@ FAMILY = dict(
 )
 
 MC = {
-    "C01": dict(quick=[("MC_Registry.tla", "MC_Registry_C01q.cfg"), ("MC_Registry.tla", "MC_Registry_C01q_so.cfg")], thorough=[("MC_Registry.tla", "MC_Registry_C01.cfg")]),
-    "C06": dict(quick=[("MC_Registry.tla", "MC_Registry_C06q.cfg")], thorough=[("MC_Registry.tla", "MC_Registry_C06.cfg")]),
+    "C01": dict(quick=[("MC_Registry.tla", "MC_Registry_C01q.cfg"), ("MC_Registry.tla", "MC_Registry_C01q_so.cfg")], thorough=[("MC_Registry.tla", "MC_Registry_C01.cfg"), ("MC_Registry.tla", "MC_Registry_C01b.cfg"), ("MC_Registry.tla", "MC_Registry_C01q_so.cfg")]),
+    "C06": dict(quick=[("MC_Registry.tla", "MC_Registry_C06q.cfg"), ("MC_Registry.tla", "MC_Registry_C06_race_file.cfg")],
+                thorough=[("MC_Registry.tla", "MC_Registry_C06.cfg"), ("MC_Registry.tla", "MC_Registry_C06b.cfg"), ("MC_Registry.tla", "MC_Registry_C06_race_file.cfg")]),
     "C03": dict(quick=[("MC_Registry.tla", "MC_Registry_C03.cfg")], thorough=[("MC_Registry.tla", "MC_Registry_C03.cfg")]),
     "C05": dict(quick=[("MC_Registry.tla", "MC_Registry_C05q.cfg")], thorough=[("MC_Registry.tla", "MC_Registry_C05.cfg")]),
-    "C10": dict(quick=[("MC_Registry.tla", "MC_Registry_C10q.cfg")], thorough=[("MC_Registry.tla", "MC_Registry_C10.cfg")]),
+    "C10": dict(quick=[("MC_Registry.tla", "MC_Registry_C10q.cfg")], thorough=[("MC_Registry.tla", "MC_Registry_C10.cfg"), ("MC_Registry.tla", "MC_Registry_C10b.cfg")]),
 }
+
+
+# design-level witness of known finding KF-C06-1: with the token fetch modelled as its two critical sections and a back
+# end whose Remove does not fail for an absent entry, one token enrols two nodes (must be VIOLATED)
+WITNESS = {"C06": dict(quick=[("MC_Registry.tla", "MC_Registry_C06_race_w.cfg", "InvC06Once")],
+                       thorough=[("MC_Registry.tla", "MC_Registry_C06_race_w.cfg", "InvC06Once")])}
 
 
 def family_for(prop):
     f = dict(FAMILY)
     f["mc"] = MC[prop]
+    f["witness"] = WITNESS.get(prop, {})
     return f
